@@ -268,8 +268,12 @@ def cases(tier):
                     for ured in ([0.0, 1.0] if closure == "periodic" else [0.0]):
                         for sp in (("I",), ("U",)) if tier == "quick" else (("I",), ("U",), ("G",)):
                             for org in (0, 1):
-                                out.append({"kind": "embed", "small": small, "big": big, "pos": pos, "nred": nred, "spred": spred,
-                                            "closure": closure, "ured": ured, "sp": sp[0], "org": org})
+                                d_small = U.dim(small)
+                                rshapes = [RSHAPE[d_small]] if tier == "quick" else \
+                                    ([(1,), (2,), (3,)] if d_small == 1 else [(2, 3), (1, 2), (3, 1), (2, 2)])
+                                for rs in rshapes:
+                                    out.append({"kind": "embed", "small": small, "big": big, "pos": pos, "nred": nred, "spred": spred,
+                                                "closure": closure, "ured": ured, "sp": sp[0], "org": org, "rshape": list(rs)})
     for cls, perms in (("Grid2D", [(1, 0)]), ("Grid3D", [p for p in itertools.permutations(range(3)) if p != (0, 1, 2)])):
         for perm in perms:
             for sp in ("I", "U"):
@@ -306,7 +310,8 @@ def run_case(case):
             res["precond_failed"] = res.get("precond_failed", 0) + 1
             return
         diff = float(np.max(np.abs(fullQ_mapped - fullP))) if fullQ_mapped.shape == fullP.shape else float("inf")
-        tol = 64 * EPS * max(kP, kQ) * sc
+        # two solutions are compared, each the result of two sequential solves: 64*eps*cond per solve
+        tol = 64 * EPS * (kP + kQ) * sc * 2
         if not diff <= tol:
             k = extra_known or ("C08:%s:%s" % (tag, "+".join(t.split(":")[0] for t in ts)))
             if k not in seen:
@@ -317,7 +322,7 @@ def run_case(case):
         small, big, pos = case["small"], case["big"], case["pos"]
         d = U.dim(small)
         for kv in KINDVECS:
-            P = make_problem(small, RSHAPE[d], (case["sp"],) * d, case["org"], kv)
+            P = make_problem(small, tuple(case.get("rshape", RSHAPE[d])), (case["sp"],) * d, case["org"], kv)
             Q = embed(P, big, pos, case["nred"], case["spred"], case["closure"], case["ured"])
             for ts in TERMSETS:
                 fP, kP = solve_problem(P, ts)
